@@ -127,6 +127,10 @@ fn collect<V: Fv>(ctx: &Ctx, total: usize, rep: &mut Report) -> Vec<SaltRec> {
 }
 
 pub fn salts(ctx: &Ctx, rep: &mut Report) {
+    if !crate::pool::keygen_responds::<F512>() {
+        rep.inconclusive("key generation did not return within 180 s (canary); reported as inconclusive, never as a violation".into());
+        return;
+    }
     let n512 = ctx.sz(48_000, 1_000_000);
     let n1024 = ctx.sz(16_000, 200_000);
     let mut all = collect::<F512>(ctx, n512, rep);
